@@ -212,3 +212,70 @@ def renamed(node, L=1):
         return Node(node.kind)
     kids = [renamed(c, L) for c in node.children]
     return Node(node.kind, kids, [L] * len(kids) if node.kind == "O" else [])
+
+
+# ---------- exhaustive protocol-following scripts for a concrete shape ----------
+def all_scripts(root_node, K, alphabet=("GO", "GA", "N", "LO", "LA", "RAW"), max_restarts=0):
+    """every protocol-following script of at most K ops for this tree (the tree is concrete, so legality is decided here by
+    simulating the reference cursor); only maximal scripts are returned (length K, or the root was left).
+    RS (reset) may be used up to max_restarts times and restarts the traversal."""
+    out = []
+
+    def legal_ops(state):
+        stack, pending, onvalue, started, done = state
+        if done:
+            return []
+        ops = []
+        if not started:
+            ops.append("GO" if root_node.kind == "O" else "GA")
+            return ops
+        top, idx = stack[-1]
+        if pending is not None:
+            ops.append("GO" if pending.kind == "O" else "GA")
+        ops.append("N")
+        ops.append("LO" if top.kind == "O" else "LA")
+        if onvalue:
+            ops.append("RAW")
+        return ops
+
+    def step(state, op):
+        stack, pending, onvalue, started, done = state
+        stack = list(stack)
+        if op in ("GO", "GA"):
+            if not started:
+                return ([(root_node, 0)], None, False, True, False)
+            return (stack + [(pending, 0)], None, False, True, False)
+        if op == "N":
+            top, idx = stack[-1]
+            if idx >= len(top.children):
+                return (stack, None, False, True, False)
+            child = top.children[idx]
+            stack[-1] = (top, idx + 1)
+            if child.kind in ("O", "A"):
+                return (stack, child, True, True, False)
+            return (stack, None, True, True, False)
+        if op in ("LO", "LA"):
+            stack.pop()
+            return (stack, None, False, True, len(stack) == 0)
+        if op == "RAW":
+            return (stack, None, False, True, False)      # pending container (if any) consumed; on a scalar nothing changes
+        raise ValueError(op)
+
+    def rec(seq, state, restarts):
+        ops = [o for o in legal_ops(state) if o in alphabet]
+        if len(seq) == K or not ops:
+            out.append(list(seq))
+            return
+        for op in ops:
+            rec(seq + [op], step(state, op), restarts)
+        if restarts < max_restarts and state[3] and not state[4] and len(seq) + 2 <= K:
+            rec(seq + ["RS"], ([], None, False, False, False), restarts + 1)
+
+    rec([], ([], None, False, False, False), 0)
+    seen, res = set(), []
+    for s in out:
+        t = tuple(s)
+        if t and t not in seen:
+            seen.add(t)
+            res.append(s)
+    return res
